@@ -15,7 +15,9 @@ NAME_STYLES = [lambda i: 'model_%04d' % i, lambda i: 'm%d' % (i + 1), lambda i: 
                lambda i: ['Zeta', 'alpha', 'B2', 'a10', 'a9', 'Mm', 'mm', 'x_y'][i],
                # unpadded numbering and names that are prefixes of each other: <name>_sed.fits files then sort differently
                # from the names themselves ('m10_sed.fits' < 'm1_sed.fits' but 'm1' < 'm10')
-               lambda i: ['m1', 'm10', 'm2', 'm', 'm1A', 'm100', 'm11', 'm.5'][i]]
+               lambda i: ['m1', 'm10', 'm2', 'm', 'm1A', 'm100', 'm11', 'm.5'][i],
+               # ordinary words: names that end in letters which also occur in '_sed.fits', or in '_' / '.'
+               lambda i: ['dust', 'jet', 'cloud', 'halo_', 'disk.s', 'fits', 'sed', 'stellar_sed'][i]]
 
 
 @st.composite
